@@ -61,6 +61,8 @@ def run(chk):
              "including the first one in the sentinel state (innermost loop body interpreted on 4 situations x 2 coordinates)")
     chk.rule("R7.validator-table", "CheckPrecisionRange accepts exactly [-MAX, MAX], otherwise sets the code, calls DoError and clamps")
     chk.rule("R7.zero-scale", "ScalePath reports a zero scale")
+    chk.rule("R8.odd-count", "MakePath / MakePathD from a std::vector report an odd number of coordinates (DoError(non_pair_error_i)) exactly when the count is odd, "
+             "and hand on its even part (interpreted for 0..7 values)")
     chk.rule("R7.range-table", "ScalePaths<int64_t> rejects exactly the bounds that leave [min_coord, max_coord]")
     for cfg in cfgs:
         db = AstDB(cfg)
@@ -70,6 +72,8 @@ def run(chk):
         e.rule_r5()
         e.rule_r6(Module(cfg))
         e.rule_r7()
+        if e.rule_odd_count() < 8:
+            raise AnalysisBroken("R8.odd-count: no MakePath / MakePathD overload taking a std::vector is instantiated (configuration %s)" % cfg)
         from ..engines import e3_tables as e3
         e3.bounds_update_table(db, chk, cfg)
         if not e.doerror_throws:
